@@ -48,17 +48,17 @@ def add(ctx, cases):
 def plan_c01(ctx):
     r = mc(ctx, "lists", "MC_Unify", {"K": "1", "Sched": "{0}", "Tag": '"ulist"', "WithPrior": "FALSE"},
            ["Den", "AcyclicInv", "UnifiedIdentical", "UserBalance", "ExtensionExact", "EmitCase"],
-           {"GoalsAt": "UGoalsAt", "Vals": "UVals"})
+           {"GoalsAfter": "UGoalsAfter", "Vals": "UVals"})
     add(ctx, store_cases(ctx, r, "ul"))
     r = mc(ctx, "cmp", "MC_Unify", {"K": "1", "Sched": "{0}", "Tag": '"ucmp"', "WithPrior": "FALSE"},
            ["Den", "AcyclicInv", "UnifiedIdentical", "UserBalance", "ExtensionExact", "EmitCase"],
-           {"GoalsAt": "CGoalsAt", "Vals": "CVals"})
+           {"GoalsAfter": "CGoalsAfter", "Vals": "CVals"})
     add(ctx, store_cases(ctx, r, "uc"))
     if ctx["tier"] == "thorough":
         r = mc(ctx, "prior", "MC_Unify", {"K": "2", "Sched": "{0}", "Tag": '"uprior"', "WithPrior": "TRUE",
                                           "Slots": "16"},
                ["Den", "AcyclicInv", "UnifiedIdentical", "UserBalance", "ExtensionExact", "EmitCase"],
-               {"GoalsAt": "UGoalsAt", "Vals": "UVals"}, workers=16, timeout=7000)
+               {"GoalsAfter": "UGoalsAfter", "Vals": "UVals"}, workers=16, timeout=7000)
         add(ctx, store_cases(ctx, r, "up"))
     # seeded random: deeper terms, more variables, priors, all literal kinds, compounds
     rng = ctx["rng"]
@@ -79,7 +79,7 @@ def tree_scope(ctx, as_query):
     k = T(ctx, "3", "4")
     sched = T(ctx, "{0}", "{0, 1, 5}")
     r = mc(ctx, "tree", "MC_Tree", {"K": k, "Sched": sched, "Tag": '"tree"'}, TREE_INVS,
-           {"GoalsAt": "TreeGoalsAt", "Vals": "TreeVals"}, workers=T(ctx, 12, 16), timeout=7000)
+           {"GoalsAfter": "TreeGoalsAfter", "Vals": "TreeVals"}, workers=T(ctx, 12, 16), timeout=7000)
     cases = [c for c in r["cases"]]
     # the code is executed once per sequence (schedule index 0 only: the hook decides the order there)
     seen, uniq = set(), []
@@ -110,8 +110,28 @@ def random_tree_programs(ctx, n, prefix, perms=6):
     return out
 
 
+def sched_sweep(ctx, n, prefix, group_check=None):
+    """Programs whose stored constraints are re-run in every forced order (hook verif::schedule)."""
+    rng = ctx["rng"]
+    out = []
+    for i in range(n):
+        goals, nv = gen.sched_tree_program(rng)
+        g = "%s-%s-%d" % (ctx["prop"], prefix, i)
+        ks = [1, 2, 3, 4, 5, 6] + [rng.randint(7, 24) for _ in range(2)]
+        for j, k in enumerate(ks):
+            c = {"id": "%s-k%d" % (g, k) + ("" if j < 6 else "x%d" % j), "kind": "program", "mode": "query",
+                 "qvars": list(range(1, nv + 1)), "body": goals, "sched": k, "after": 2}
+            if group_check:
+                c["group"] = g
+                if j == len(ks) - 1:
+                    c["gcheck"] = group_check
+            out.append(c)
+    return out
+
+
 def plan_c02(ctx):
     add(ctx, tree_scope(ctx, as_query=True))
+    add(ctx, sched_sweep(ctx, T(ctx, 150, 3000), "sw"))
     add(ctx, random_tree_programs(ctx, T(ctx, 300, 6000), "r"))
     rng = ctx["rng"]
     for i in range(T(ctx, 400, 8000)):
@@ -488,6 +508,8 @@ def plan_c09(ctx):
     for i in range(T(ctx, 150, 3000)):
         nq = rng.randint(1, 2)
         add(ctx, [query(ctx, "C09-fused-%d" % i, nq, gen.search_program(rng, nq, rng.randint(1, 5)), after=4)])
+    # determinism under every forced order of re-running the stored constraints
+    add(ctx, sched_sweep(ctx, T(ctx, 120, 2500), "sw", group_check="same_seq"))
     # determinism: the same query R times (round-robin over harness processes = different hash
     # seeds per run, every HashMap instance draws new keys even within one process)
     R = T(ctx, 4, 12)
@@ -515,7 +537,7 @@ PROPS.update({
             "assumptions": SEARCH_ASSUME + ["need[b] is a lower bound of what branch b yields alone (reference fuel 8, M = 3)",
                                             "step budget = 20 x model ticks + 1000 (hook verif::tick)"]},
     "C09": {"plan": plan_c09, "reasons": {"budget_exhausted", "unfair_starvation", "not_fused", "group_sequences_differ",
-                                          "did_not_terminate"},
+                                          "group_outcomes_differ", "did_not_terminate"},
             "rule": "laziness: take n on the MC_Live.GrowScope producers ends before the budget; fusedness: four extra "
                     "next() calls after the first None on finite programs; determinism: the same query run R times in "
                     "different harness processes (hash seeds) must give the same answer sequence up to renaming and "
